@@ -97,6 +97,7 @@ def run(ctx, rep):
     swallowed(pdb, rep, R)
     orders(ctx, pdb, rep, R)
     pattern_template(pdb, rep)
+    derived_logs(pdb, rep)
     seen_transform = set()
     for cname in ctx.cli_configs():
         cdb = ctx.db(cname)
@@ -292,3 +293,39 @@ def pattern_template(pdb, rep):
     rep.ob('C19.select', 'path-terminated', ok,
            f'annotation regex template pieces {pieces}: the substituted path must be followed by ": " and the kind by a captured "(...)"',
            fn.loc(), 'parser')
+
+
+def derived_logs(pdb, rep):
+    """The logarithms handed to the verifier (log_n_steps, log_trace_domain_size, log_last_layer_degree_bound, the
+    commitment heights) are all produced by log2_if_power_of_2: it must yield a value only for a power of two, i.e.
+    for x != 0 with x & (x - 1) == 0 (or through u32::is_power_of_two), so that a file stating 0 or a non-power is
+    refused instead of being given a logarithm the file never stated."""
+    import dataflow
+    cands = [p for p in pdb.fns if p.endswith('::log2_if_power_of_2')]
+    if len(cands) != 1:
+        rep.fail_closed('C19.log2', f'log2_if_power_of_2 not found ({cands})')
+        return
+    fn = pdb.fns[cands[0]]
+    fl = dataflow.Flow(pdb, fn)
+    gs = [g for g in dataflow.own_guards(pdb, fn, fl) if g.covers == 'all']
+    nz = any(g.rel == 'NE' and {frozenset(g.lhs), frozenset(g.rhs)} == {frozenset({'a1'}), frozenset({'lit:0'})} for g in gs) or \
+        any(g.rel == 'LT' and set(g.lhs) == {'lit:0'} and set(g.rhs) == {'a1'} for g in gs)
+    p2 = any(g.rel == 'EQ' and {frozenset(g.lhs), frozenset(g.rhs)} == {frozenset({'a1', 'lit:1', 'op:bitand', 'op:sub'}), frozenset({'lit:0'})}
+             for g in gs)
+    lib = any(g.rel == 'TRUE' and 'a1' in g.lhs and any('is_power_of_two' in x for x in g.lhs) for g in gs) or \
+        any(g.rel == 'EQ' and any('count_ones' in x for x in g.lhs | g.rhs) and 'lit:1' in (g.lhs | g.rhs) for g in gs)
+    ok = (nz and p2) or lib
+    rep.ob('C19.log2', 'power-of-two-only', ok,
+           'log2_if_power_of_2 returns Some only when x != 0 and x & (x - 1) == 0' if ok else
+           f'log2_if_power_of_2 does not refuse every non-power of two: non-zero test {"present" if nz else "MISSING"}, '
+           f'single-bit test {"present" if p2 else "MISSING"} (guards on the Some path: {[g.key() for g in gs][:4]})',
+           fn.loc(), 'parser')
+    # every use of the helper must treat None as an error
+    uses = 0
+    for p, f in pdb.fns.items():
+        if not f.has_mir or f.compact:
+            continue
+        for bi, t in f.calls():
+            if (t['f'].get('resolved') or '') == cands[0]:
+                uses += 1
+    rep.floor('C19.log2', 'uses of log2_if_power_of_2', uses, 3)
